@@ -676,9 +676,10 @@ def _modifier_to_expr(parsed_pattern) -> str:
         elif cond.operator == 'month':
             conditions.append(f"month == {cond.month}")
         elif cond.operator == 'relative':
-            # Relative dates can't be easily converted - use approximation
-            # Note: This isn't perfect, but it's a reasonable migration
-            conditions.append(f"# Note: was last{cond.relative_days}days")
+            # Relative dates can't be expressed (the expression language has no "today"):
+            # the condition is left out. It must not be written into the expression as a
+            # comment: joined with the other conditions that is not an expression at all.
+            continue
 
     return " and ".join(conditions)
 
